@@ -21,9 +21,15 @@
 #include <map>
 #include <unordered_map>
 #include <algorithm>
+#include <unistd.h>
+#include <sys/wait.h>
 
 using namespace xalanc;
 using namespace verif;
+
+#if defined(__SANITIZE_ADDRESS__)
+extern "C" int __lsan_do_recoverable_leak_check();
+#endif
 
 static MemoryManager& MM() { return XalanMemMgrs::getDefaultXercesMemMgr(); }
 
@@ -379,6 +385,8 @@ struct StrRun {
     static std::string show(const XalanDOMString& t) { std::vector<long> e; for (XalanDOMString::size_type i = 0; i < t.length() && i < 100000; ++i) e.push_back(t[i]); return join(e.begin(), e.end()); }
     static std::string show(const std::u16string& t) { std::vector<long> e; for (size_t i = 0; i < t.size(); ++i) e.push_back(t[i]); return join(e.begin(), e.end()); }
     static long sign(long v) { return v < 0 ? -1 : v > 0 ? 1 : 0; }
+    // true when m_data holds nothing, not even a terminator (default-constructed or cleared string)
+    static bool bufempty(const XalanDOMString& t) { return t.c_str() != t.begin(); }
     void run(const std::string& id, const std::vector<Op>& ops) {
         std::string out, diff;
         for (size_t k = 0; k < ops.size(); ++k) {
@@ -398,11 +406,13 @@ struct StrRun {
             else if (o.name == "inso") { if ((size_t) a[0] > n) ok = false; else { t.insert((XalanDOMString::size_type) a[0], to); w.insert((size_t) a[0], wo); } }
             else if (o.name == "er") { if ((size_t) (a[0] + a[1]) > n) ok = false; else { t.erase((XalanDOMString::size_type) a[0], (XalanDOMString::size_type) a[1]); w.erase((size_t) a[0], (size_t) a[1]); } }
             else if (o.name == "ernpos") { if ((size_t) a[0] > n) ok = false; else { t.erase((XalanDOMString::size_type) a[0]); w.erase((size_t) a[0]); } }
-            else if (o.name == "erit") { if (!(a[0] <= a[1] && (size_t) a[1] <= n) || n == 0) ok = false; else { XalanDOMString::iterator r = t.erase(t.begin() + a[0], t.begin() + a[1]); rx = num(r - t.begin()); std::u16string::iterator q = w.erase(w.begin() + a[0], w.begin() + a[1]); rs = num(q - w.begin()); } }
-            else if (o.name == "eritempty") { if (n != 0) ok = false; else { t.erase(t.begin(), t.end()); w.erase(w.begin(), w.end()); } }
+            else if (o.name == "erit") { if (!(a[0] <= a[1] && (size_t) a[1] <= n) || bufempty(t)) ok = false; else { XalanDOMString::iterator r = t.erase(t.begin() + a[0], t.begin() + a[1]); rx = num(r - t.begin()); std::u16string::iterator q = w.erase(w.begin() + a[0], w.begin() + a[1]); rs = num(q - w.begin()); } }
+            else if (o.name == "eritempty") { if (!bufempty(t)) ok = false; else { t.erase(t.begin(), t.end()); w.erase(w.begin(), w.end()); } }
             else if (o.name == "erit1") { if ((size_t) a[0] >= n) ok = false; else { XalanDOMString::iterator r = t.erase(t.begin() + a[0]); rx = num(r - t.begin()); std::u16string::iterator q = w.erase(w.begin() + a[0]); rs = num(q - w.begin()); } }
-            else if (o.name == "rsz") { t.resize((XalanDOMString::size_type) a[0], (XalanDOMChar) a[1]); w.resize((size_t) a[0], (char16_t) a[1]); }
-            else if (o.name == "rsz0") { t.resize((XalanDOMString::size_type) a[0]); w.resize((size_t) a[0]); }
+            // resize growing a string whose buffer already holds a terminator is known-finding class K-C20-3 ("rszgrow"); rsz0 growing would create NUL code units (outside the driven domain)
+            else if (o.name == "rsz") { if ((size_t) a[0] > n && !bufempty(t)) ok = false; else { t.resize((XalanDOMString::size_type) a[0], (XalanDOMChar) a[1]); w.resize((size_t) a[0], (char16_t) a[1]); } }
+            else if (o.name == "rszgrow") { t.resize((XalanDOMString::size_type) a[0], (XalanDOMChar) a[1]); w.resize((size_t) a[0], (char16_t) a[1]); }
+            else if (o.name == "rsz0") { if ((size_t) a[0] > n) ok = false; else { t.resize((XalanDOMString::size_type) a[0]); w.resize((size_t) a[0]); } }
             else if (o.name == "rsv") { t.reserve((XalanDOMString::size_type) a[0]); w.reserve((size_t) a[0]); }
             else if (o.name == "clr") { t.clear(); w.clear(); }
             else if (o.name == "asgw") { t.assign(wp, (XalanDOMString::size_type) wl); w.assign(ws); }
@@ -463,10 +473,25 @@ int main(int argc, char** argv)
         const std::string& id = t[0]; const std::string& kind = t[1];
         std::vector<long> params; { Op p = parse_op("p:[" + t[2]); params = p.list; }
         std::vector<Op> ops; for (size_t i = 3; i < t.size(); ++i) ops.push_back(parse_op(t[i]));
-        if (kind == "vi") { VecRun<IntAd> r; r.run(id, ops); }
-        else if (kind == "vs") { VecRun<StrAd> r; r.run(id, ops); }
-        else if (kind == "m") { if (params.size() < 8) continue; MapRun r(params); r.run(id, ops); }
-        else run_more(id, kind, params, ops);
+        // every case runs in a forked child so that a crash (signal, failed assert, sanitizer abort) is
+        // pinned to its case and does not take the following cases with it
+        std::cout.flush();
+        const pid_t pid = fork();
+        if (pid == 0) {
+            if (kind == "vi") { VecRun<IntAd> r; r.run(id, ops); }
+            else if (kind == "vs") { VecRun<StrAd> r; r.run(id, ops); }
+            else if (kind == "m") { if (params.size() >= 8 && params[2] >= 1 && params[6] >= 1) { MapRun r(params); r.run(id, ops); } }
+            else run_more(id, kind, params, ops);
+            std::cout.flush();
+#if defined(__SANITIZE_ADDRESS__)
+            if (__lsan_do_recoverable_leak_check()) _exit(96);      // the containers of this case leaked
+#endif
+            _exit(0);
+        }
+        int status = 0;
+        waitpid(pid, &status, 0);
+        if (!(WIFEXITED(status) && WEXITSTATUS(status) == 0))
+            std::cout << id << ".o CRASH " << (WIFSIGNALED(status) ? "signal " + num(WTERMSIG(status)) : "exit status " + num(WEXITSTATUS(status))) << '\n';
         std::cout.flush();
     }
     return 0;
